@@ -170,3 +170,104 @@ func CheckDelivery(r *Run) []Problem {
 	}
 	return ps
 }
+
+// CheckCumulativeDelivery is the client-centric form of exactly-once: within
+// one attachment, once a client's checkpoint is at serverSeq n every change of
+// another actor with serverSeq <= n has been delivered to it exactly once
+// (unless a snapshot replaced the stream).
+func CheckCumulativeDelivery(r *Run) []Problem {
+	var ps []Problem
+	type sess struct {
+		cp        int64
+		delivered map[int64]bool
+		snap      bool
+	}
+	ss := map[string]*sess{}
+	for i, t := range r.Trace {
+		if t.Req == nil || t.Err != nil || t.Resp == nil || t.Lost {
+			continue
+		}
+		me := t.Client.String()
+		if t.Kind == "attach" {
+			ss[me] = &sess{delivered: map[int64]bool{}}
+		}
+		s := ss[me]
+		if s == nil {
+			continue
+		}
+		if len(t.Resp.Snapshot) > 0 {
+			s.snap = true
+		}
+		for _, c := range t.Resp.Changes {
+			if c.ID().ActorID().String() == me {
+				continue
+			}
+			if s.delivered[c.ServerSeq()] {
+				ps = append(ps, Problem{Kind: "duplicate-delivery", Step: i, Detail: fmt.Sprintf("call %d (%s) by %s: serverSeq %d delivered twice", i, t.Kind, me, c.ServerSeq())})
+			}
+			s.delivered[c.ServerSeq()] = true
+		}
+		if t.Resp.Checkpoint.ServerSeq > s.cp {
+			s.cp = t.Resp.Checkpoint.ServerSeq
+		}
+		if s.snap || t.Kind == "detach" || t.Kind == "remove" {
+			continue
+		}
+		for _, row := range r.Out.Log {
+			if row.ServerSeq <= s.cp && row.Actor != me && !s.delivered[row.ServerSeq] {
+				if r.FirstNoPresence && row.NOps == 0 {
+					continue
+				}
+				ps = append(ps, Problem{Kind: "lost-delivery", Step: i, Detail: fmt.Sprintf("after call %d (%s) client %s is at checkpoint %d but never received serverSeq %d of %s", i, t.Kind, me, s.cp, row.ServerSeq, row.Actor)})
+				return ps
+			}
+		}
+	}
+	return ps
+}
+
+// CheckMinVV: the vector a response hands out for GC is, per actor, no greater
+// than what every other attached GC-participating client last reported.
+func CheckMinVV(r *Run) []Problem {
+	var ps []Problem
+	rows := map[string]map[string]int64{} // client -> last reported vector
+	for i, t := range r.Trace {
+		me := t.Client.String()
+		switch t.Kind {
+		case "deactivate":
+			if t.Err == nil {
+				delete(rows, me)
+			}
+			continue
+		case "activate":
+			continue
+		}
+		if t.Req == nil || t.Err != nil || t.Resp == nil {
+			continue
+		}
+		if t.Kind == "detach" || t.Kind == "remove" {
+			delete(rows, me)
+			continue
+		}
+		if t.DisableGC {
+			continue
+		}
+		p, err := fromPack(t)
+		if err != nil {
+			continue
+		}
+		rows[me] = p
+		if len(t.Resp.Snapshot) > 0 || t.PushOnly || t.Resp.VersionVector == nil {
+			continue
+		}
+		for a, x := range t.Resp.VersionVector {
+			for cl, row := range rows {
+				if x > row[a.String()] {
+					ps = append(ps, Problem{Kind: "minvv-overstates", Step: i, Detail: fmt.Sprintf("call %d (%s) by %s: response vector has %s=%d but attached client %s last reported %d", i, t.Kind, me, a.String(), x, cl, row[a.String()])})
+					return ps
+				}
+			}
+		}
+	}
+	return ps
+}
